@@ -196,6 +196,9 @@ class Violin(object):
         """ Compute stats """
         data = self._data
 
+        # Stats are computed from finite values only
+        data = data.where(np.isfinite(data))
+
         # Compute stats
         self.stat_median = data.median()
 
